@@ -1146,11 +1146,6 @@ func wktSchema(src protoreflect.MessageDescriptor, ext protoFieldExtensions) (Fi
 			},
 		}, true, nil
 
-	case "google.protobuf.Struct":
-		return &MapField{
-			Schema: &AnyField{},
-		}, true, nil
-
 	case "j5.types.any.v1.Any", "google.protobuf.Any":
 		field := &AnyField{
 			ListRules: ext.list.GetAny(),
